@@ -47,10 +47,13 @@ def cases(tier, seed):
     out.append(dict(kind='name_walk', seed=seed))
     for s in range(4):
         out.append(dict(kind='arbitration', seed=seed * 10 + s, backgrounds=3 if tier == 'quick' else 10))
+    # the same parse as an application sees it: identifiers fed into a real ECU, (priority, PGN, source address) handed to an unfiltered listener
+    for s in range(2 if tier == 'quick' else 8):
+        out.append(dict(kind='ecu_rx', seed=seed * 10 + s))
     return out
 
 
-def check_id(j, x, viol, tag):
+def _check_id(j, x, viol, tag):
     mid = j.MessageId(can_id=x)
     prio = (x >> 26) & 7
     pgn = (x >> 8) & 0x3FFFF
@@ -66,7 +69,7 @@ def check_id(j, x, viol, tag):
         viol.add('id_compose', 'MessageId(priority=%d, pgn=%05X, sa=%02X).can_id == %08X, reference %08X' % (prio, pgn, sa, m2.can_id, x), **tag)
 
 
-def check_pgn(j, x, viol, tag):
+def _check_pgn(j, x, viol, tag):
     """x: identifier; PGN class against the reference, modulo the EDP bit"""
     f = C.split_id(x)
     mid = j.MessageId(can_id=x)
@@ -88,7 +91,7 @@ def check_pgn(j, x, viol, tag):
 RES = 1 << 48
 
 
-def check_name(j, v, viol, tag):
+def _check_name(j, v, viol, tag):
     want = v & ~RES
     n = j.Name(value=v)
     f = C.name_fields(want)
@@ -135,6 +138,21 @@ def check_name(j, v, viol, tag):
         n2.bytes = list(C.name_bytes(want2))
         if n2.value != want2 or getattr(n2, k) != newv:
             viol.add('name_after_set', 'Name(bytes=..) after .bytes = %s: value %016X field %s = %r' % (C.name_bytes(want2).hex(), n2.value, k, getattr(n2, k)), field='bytes', **tag)
+
+
+def _guard(fn, what):
+    """an exception out of a codec class for an in-range value is a violation of the property (not a harness problem)"""
+    def g(j, x, viol, tag):
+        try:
+            return fn(j, x, viol, tag)
+        except Exception as e:
+            viol.add('codec_raised', '%s %X: %s' % (what, x, repr(e)[:160]), exc=type(e).__name__, what=what, **tag)
+    return g
+
+
+check_id = _guard(_check_id, 'identifier')
+check_pgn = _guard(_check_pgn, 'identifier / PGN object')
+check_name = _guard(_check_name, 'NAME')
 
 
 def run_case(case):
@@ -208,6 +226,28 @@ def run_case(case):
                 viol.add('name_range', 'Name(%s=%d) accepted a value that does not fit %d bits' % (nm, 1 << w, w), **tag)
             except ValueError:
                 pass
+    elif kind == 'ecu_rx':
+        W = World(case['seed'], 'j1939-21')
+        node = W.stack('A')
+        seen = []
+        node.ecu.subscribe(lambda priority, pgn, sa, timestamp, data: seen.append((priority, pgn, sa, bytes(data))))
+        for dp in (0, 1):
+            for pf in range(256):
+                if pf in (0xEA, 0xEB, 0xEC, 0xEE):
+                    continue          # request / transport / address claim are consumed by the stack itself
+                for rep in range(2):
+                    ps = 255 if pf < 240 else rng.randrange(256)          # PDU1: to the global address, so that an unfiltered listener gets it
+                    prio, sa = rng.randrange(8), rng.choice([0, 0x21, 0x80, 253, rng.randrange(254)])
+                    x = C.make_id(prio, dp, pf, ps, sa)
+                    seen.clear()
+                    node.on_frame(Frame(-1, W.sim.now, 'X', x, bytes([pf, dp, 1, 2])))
+                    obs['identifiers_checked'] += 1
+                    want = (prio, (dp << 16) | (pf << 8) | (ps if pf >= 240 else 0), sa, bytes([pf, dp, 1, 2]))
+                    got = [(g[0], g[1], g[2], g[3]) for g in seen]
+                    if got != [want]:
+                        viol.add('id_parse', 'identifier %08X received by an ECU: the listener was told %s, the identifier says priority %d PGN %05X SA %02X'
+                                 % (x, [(g[0], '%05X' % g[1], '%02X' % g[2]) for g in seen], want[0], want[1], want[2]), how='ecu_level', **tag)
+        W.close()
     elif kind == 'arbitration':
         W = World(case['seed'], 'j1939-21')
         node = W.stack('A')
